@@ -549,3 +549,625 @@ func TestC09Gap(t *testing.T) {
 			return false
 		})
 }
+
+// ---- C02 (b) / C18 (b): a second writer inside the read->write window -----------------------------
+
+// genWindowScript: lane A is a read-modify-write call (WriteSubDoc / SubdocInsert / Update /
+// WriteUpdateWithXattrs) held inside its window; lane B writes the same document; A is released.
+func genWindowScript(rt *rapid.T) *Script {
+	sc := &Script{Config: Config{Disk: chance(rt, 25, "disk"), Handles: rapid.IntRange(1, 2).Draw(rt, "handles"), Colls: allCollNames[:1]}, Extra: map[string]any{}}
+	doc := map[string]any{"p0": 1.0, "p1": "x", "nest": map[string]any{"a": 1.0}}
+	sc.Prefix = []Op{{K: "WriteWithXattrs", Key: "a", Body: mustJSON(doc), X: map[string]string{"_sync": `{"seq":1}`}, Cas: CasSpec{Kind: "zero"}}}
+	if chance(rt, 15, "win.tomb") {
+		sc.Prefix = append(sc.Prefix, Op{K: "Delete", Key: "a"})
+	}
+	kindA := pick(rt, []string{"WriteSubDoc", "WriteSubDoc", "SubdocInsert", "Update", "WriteUpdateWithXattrs"}, "win.a")
+	a := Op{K: kindA, Key: "a"}
+	switch kindA {
+	case "WriteSubDoc":
+		a.Path = pick(rt, []string{"pa", "nest.b", "p0"}, "win.path")
+		a.Body = []byte(`"A"`)
+		a.Cas = CasSpec{Kind: pick(rt, []string{"zero", "zero", "current"}, "win.cas")}
+	case "SubdocInsert":
+		a.Path = pick(rt, []string{"pa", "nest.b"}, "win.path")
+		a.Body = []byte(`"A"`)
+		a.Cas = CasSpec{Kind: pick(rt, []string{"zero", "current"}, "win.cas")}
+	case "Update":
+		a.Cb = "append" // the callback appends a marker to what it is shown (script-specific)
+	case "WriteUpdateWithXattrs":
+		a.Cb = "append"
+		a.XKeys = []string{"_sync"}
+	}
+	kindB := pick(rt, []string{"WriteSubDoc", "Set", "Delete", "WriteCas", "SetXattrs", "Incr", "Update"}, "win.b")
+	b := Op{K: kindB, Key: "a"}
+	switch kindB {
+	case "WriteSubDoc":
+		b.Path, b.Body = "pb", []byte(`"B"`)
+	case "Set":
+		b.Body = []byte(`{"p0":2,"fromB":true}`)
+	case "WriteCas":
+		b.Body, b.Cas = []byte(`{"p0":3,"fromB":true}`), CasSpec{Kind: "current"}
+	case "SetXattrs":
+		b.X = map[string]string{"_vv": `{"b":1}`}
+	case "Incr":
+		b.Key = "a"
+		b.Amt, b.Def = 1, 1
+	case "Update":
+		b.Cb, b.Body = "set", []byte(`{"p0":4,"fromB":true}`)
+	}
+	if sc.Config.Handles > 1 {
+		b.H = 1
+	}
+	arm := []string{"subdoc.betweenReadWrite", "callback"}
+	sc.Steps = []SStep{{Do: "start", Lane: "A", Op: &a, Arm: arm}, {Do: "start", Lane: "B", Op: &b}, {Do: "resume", Lane: "A"}}
+	return sc
+}
+
+// execWindowA runs lane A's op; Update / WriteUpdateWithXattrs callbacks park at "callback" on
+// their first invocation and append a marker to the document they are shown.
+func (sr *scriptRun) execWindowA(op Op, out *laneOut) {
+	w := sr.run.W
+	ds := w.Coll(op.H, op.C)
+	calls := 0
+	edit := func(current []byte) []byte {
+		var m map[string]any
+		if current == nil || json.Unmarshal(current, &m) != nil || m == nil {
+			m = map[string]any{}
+		}
+		m["fromA"] = true
+		return mustJSON(m)
+	}
+	switch {
+	case op.K == "Update" && op.Cb == "append":
+		cas, err := ds.Update(op.Key, 0, func(current []byte) ([]byte, *uint32, bool, error) {
+			calls++
+			out.Res.Cb = append(out.Res.Cb, CbObs{Body: append([]byte(nil), current...)})
+			if current == nil {
+				out.Res.Cb[len(out.Res.Cb)-1].Body = nil
+			}
+			if calls == 1 {
+				sr.s.ParkHere("callback")
+			}
+			return edit(current), nil, false, nil
+		})
+		out.Res.Cas, out.Res.Err = cas, errClass(err)
+	case op.K == "WriteUpdateWithXattrs" && op.Cb == "append":
+		cas, err := ds.WriteUpdateWithXattrs(ctx, op.Key, op.XKeys, 0, nil, &sgbucket.MutateInOptions{}, func(doc []byte, xattrs map[string][]byte, cas uint64) (sgbucket.UpdatedDoc, error) {
+			calls++
+			obs := CbObs{Body: doc, Cas: cas, X: map[string]string{}}
+			for k, v := range xattrs {
+				obs.X[k] = string(v)
+			}
+			out.Res.Cb = append(out.Res.Cb, obs)
+			if calls == 1 {
+				sr.s.ParkHere("callback")
+			}
+			return sgbucket.UpdatedDoc{Doc: edit(doc), Xattrs: map[string][]byte{"_sync": []byte(fmt.Sprintf(`{"seq":%d}`, 100+calls))}}, nil
+		})
+		out.Res.Cas, out.Res.Err = cas, errClass(err)
+	default:
+		w.exec(op, &out.Res)
+	}
+}
+
+func runWindowScript(prop string) func(sc *Script) ([]Deviation, *scriptRun, error) {
+	return func(sc *Script) (devs []Deviation, sr *scriptRun, err error) {
+		sr, err = newScriptRun(sc, prop)
+		if err != nil {
+			return nil, nil, err
+		}
+		defer sr.close()
+		w := sr.run.W
+		props := []string{"C02", "C03", "C18"}
+		bad := func(clause, f string, a ...any) {
+			devs = append(devs, Deviation{Clause: clause, Props: props, Sig: clause, Msg: fmt.Sprintf(f, a...) + fmt.Sprintf(" (script: %v)", sr.log)})
+		}
+		before, _ := Observe(w.Coll(0, 0), "a", []string{"_sync", "_vv"})
+		var afterB St
+		for _, st := range sc.Steps {
+			var status string
+			if st.Lane == "A" && st.Do == "start" {
+				out := &laneOut{Op: *st.Op}
+				sr.outs["A"] = out
+				sr.order = append(sr.order, "A")
+				// resolve A's CAS argument against the state *before* B runs (that is the version A "read")
+				status = sr.s.Start("A", st.Arm, func() { sr.execWindowA(*st.Op, out) })
+				sr.log = append(sr.log, "start A -> "+status)
+			} else {
+				status = sr.step(st)
+			}
+			if st.Lane == "B" {
+				if status == "running" {
+					status = sr.s.Await("B")
+					sr.log = append(sr.log, "await B -> "+status)
+				}
+				afterB, _ = Observe(w.Coll(0, 0), "a", []string{"_sync", "_vv"})
+			}
+			if status == "hang" {
+				bad("script.hang", "lane %s hangs", st.Lane)
+				return
+			}
+		}
+		if hung := sr.finishAll(); hung != nil {
+			bad("script.hang", "lanes %v never finished", hung)
+			return
+		}
+		sr.s.Stop()
+		final, cdevs := Observe(w.Coll(0, 0), "a", []string{"_sync", "_vv"})
+		devs = append(devs, cdevs...)
+		a, b := sr.outs["A"], sr.outs["B"]
+		inWindow := strings.Contains(strings.Join(sr.log, ";"), "start A -> parked")
+		bChanged := !afterB.Equal(before)
+		if a.Res.Panic != "" || b.Res.Panic != "" {
+			bad("script.panic", "panic: A=%q B=%q", a.Res.Panic, b.Res.Panic)
+			return
+		}
+		if !inWindow || !bChanged {
+			return // A never reached its window (e.g. refused earlier) or B changed nothing: nothing to judge
+		}
+		aOK := a.Res.Err == ""
+		switch a.Op.K {
+		case "WriteSubDoc", "SubdocInsert":
+			if a.Res.CasClass == "current" {
+				// A supplied the CAS of the version it read; B replaced that version: A must fail
+				if aOK {
+					bad("window.cas", "%s with the CAS of the version it read succeeded although %s replaced that version in between: before %s, after B %s, final %s", a.Op.K, b.Op.K, before, afterB, final)
+				} else if !final.Equal(afterB) {
+					bad("window.same", "%s failed (%s) but the document changed: after B %s, final %s", a.Op.K, a.Res.Err, afterB, final)
+				}
+				return
+			}
+			// cas 0: A retries on top of B's version: the result is B's document with A's property
+			if !aOK {
+				if afterB.Body == nil || !jsonObject(afterB.Body) || a.Op.K == "SubdocInsert" && !afterB.HasBody() {
+					if !final.Equal(afterB) {
+						bad("window.same", "%s failed (%s) but the document changed", a.Op.K, a.Res.Err)
+					}
+					return // B made the document unsuitable (deleted / non-object): refusing is right
+				}
+				if a.Res.Err == "pathnotfound" || a.Res.Err == "pathmismatch" || a.Res.Err == "pathexists" {
+					if !final.Equal(afterB) {
+						bad("window.same", "%s failed (%s) but the document changed", a.Op.K, a.Res.Err)
+					}
+					return
+				}
+				if !final.Equal(afterB) {
+					bad("window.same", "%s failed (%s) but the document changed", a.Op.K, a.Res.Err)
+				}
+				if a.Res.Err == "cas" {
+					// "no concurrent update of another property is lost" is kept by failing too, but a
+					// cas-0 sub-document write is documented to ignore CAS conflicts: it must not report one
+					bad("window.retry", "%s with cas 0 reported a CAS mismatch after %s changed the document in its window", a.Op.K, b.Op.K)
+				}
+				return
+			}
+			want := applySubdoc(afterB.Body, a.Op.Path, a.Op.Body)
+			if final.Body == nil || !jsonEqual(final.Body, want) {
+				bad("window.lost", "%s (cas 0) raced with %s: final document %q, expected %s's result with A's property: %s (after B: %q)", a.Op.K, b.Op.K, final.Body, b.Op.K, want, afterB.Body)
+			}
+		case "Update", "WriteUpdateWithXattrs":
+			if a.Op.K == "WriteUpdateWithXattrs" && !before.HasBody() {
+				return // resurrecting a tombstone is not CAS-checked (pinned by TestNoCasOnResurrection)
+			}
+			if !aOK {
+				// giving up is allowed (the properties only forbid storing on top of a version the
+				// callback was not shown), but then nothing may have changed
+				if !final.Equal(afterB) {
+					bad("window.same", "%s failed (%s) but the document changed: after B %s, final %s", a.Op.K, a.Res.Err, afterB, final)
+				}
+				return
+			}
+			last := a.Res.Cb[len(a.Res.Cb)-1]
+			var shownWant []byte
+			if afterB.HasBody() {
+				shownWant = afterB.Body
+			}
+			if string(last.Body) != string(shownWant) || (last.Body == nil) != (shownWant == nil) {
+				bad("window.shown", "%s stored its callback's result although the callback was last shown %q and the document was %q at that time", a.Op.K, last.Body, shownWant)
+			}
+			var m map[string]any
+			if final.Body == nil || json.Unmarshal(final.Body, &m) != nil || m["fromA"] != true {
+				bad("window.lost", "%s: final document %q does not carry the callback's edit", a.Op.K, final.Body)
+			}
+			if afterB.HasBody() && jsonObject(afterB.Body) {
+				var mb map[string]any
+				_ = json.Unmarshal(afterB.Body, &mb)
+				for k, v := range mb {
+					if fmt.Sprint(m[k]) != fmt.Sprint(v) {
+						bad("window.lost", "%s overwrote %s's update: after B %q, final %q", a.Op.K, b.Op.K, afterB.Body, final.Body)
+						break
+					}
+				}
+			}
+			if len(a.Res.Cb) < 2 {
+				bad("window.shown", "%s invoked its callback only once although the document changed before its write", a.Op.K)
+			}
+		}
+		return
+	}
+}
+
+func jsonObject(b []byte) bool {
+	var m map[string]any
+	return json.Unmarshal(b, &m) == nil && m != nil
+}
+
+// applySubdoc: reference for "set property at dotted path" on a JSON object (nil doc = {}).
+func applySubdoc(doc []byte, path string, val []byte) []byte {
+	var m map[string]any
+	if doc == nil || json.Unmarshal(doc, &m) != nil || m == nil {
+		m = map[string]any{}
+	}
+	var v any
+	_ = json.Unmarshal(val, &v)
+	comps := strings.Split(path, ".")
+	cur := m
+	for _, c := range comps[:len(comps)-1] {
+		next, ok := cur[c].(map[string]any)
+		if !ok {
+			return mustJSON(m)
+		}
+		cur = next
+	}
+	if v == nil {
+		delete(cur, comps[len(comps)-1])
+	} else {
+		cur[comps[len(comps)-1]] = v
+	}
+	return mustJSON(m)
+}
+
+const windowRule = "parking-scheduler scripts: lane A (WriteSubDoc / SubdocInsert with cas 0 or the current CAS, Update, WriteUpdateWithXattrs) is held between its read and its write (subdoc.betweenReadWrite, or inside its callback); lane B (WriteSubDoc of another property, Set, Delete, WriteCas, SetXattrs, Incr, Update) then changes the same document through the same or another handle; A is released. A with a supplied CAS must fail and change nothing; A with cas 0 / a callback must end up on top of B's version (both effects present, callback shown B's version on its last invocation); non-trivial = A really parked inside its window and B changed the document; distinct by script shape and scheduler log"
+
+func windowNonTrivial(sc *Script, sr *scriptRun) bool {
+	return sr != nil && strings.Contains(strings.Join(sr.log, ";"), "start A -> parked") && sr.outs["B"] != nil && sr.outs["B"].Res.Err == ""
+}
+
+func TestC02Race(t *testing.T) {
+	scriptTest(t, "C02", "TestC02Race", windowRule, genWindowScript, runWindowScript("C02"), windowNonTrivial)
+}
+
+func TestC18Race(t *testing.T) {
+	scriptTest(t, "C18", "TestC18Race", windowRule, genWindowScript, runWindowScript("C18"), windowNonTrivial)
+}
+
+// ---- C15: checkpointed feeds resume without skipping ----------------------------------------------
+
+type cpRun struct {
+	col      *Collector
+	maxCas   uint64 // highest CAS its callback received
+	received int
+	stopped  bool
+	prevCp   uint64
+}
+
+func genCheckpointScript(rt *rapid.T) *Script {
+	sc := &Script{Config: Config{Disk: chance(rt, 30, "disk"), Handles: rapid.IntRange(1, 2).Draw(rt, "handles"), Colls: allCollNames[:1]}}
+	keys := []string{"a", "b", "c", "d"}
+	for _, k := range keys[:2] {
+		sc.Prefix = append(sc.Prefix, Op{K: "Set", Key: k, Body: []byte(`{"n":0}`)})
+	}
+	n := rapid.IntRange(6, 18).Draw(rt, "cp.steps")
+	lane := 0
+	feedOn, parkedW := false, ""
+	for i := 0; i < n; i++ {
+		choices := []string{"write", "write"}
+		if !feedOn {
+			choices = append(choices, "startFeed", "startFeed")
+		} else {
+			choices = append(choices, "stopFeed", "gateCb")
+		}
+		if parkedW == "" {
+			choices = append(choices, "writePark")
+		} else {
+			choices = append(choices, "resumeW", "resumeW")
+		}
+		switch pick(rt, choices, "cp.step") {
+		case "write", "writePark":
+			op := genLaneOp(rt, lane, keys, 1)
+			if op.K == "SetWithMeta" {
+				op.K, op.MetaCas = "Set", "" // the property is about the regular write API
+			}
+			name := fmt.Sprintf("W%d", lane)
+			lane++
+			st := SStep{Do: "start", Lane: name, Op: &op}
+			if parkedW == "" && chance(rt, 40, "cp.park") {
+				st.Arm = []string{"cas.beforePost"}
+				parkedW = name
+			}
+			sc.Steps = append(sc.Steps, st)
+		case "resumeW":
+			sc.Steps = append(sc.Steps, SStep{Do: "resume", Lane: parkedW})
+			parkedW = ""
+		case "startFeed":
+			arm := []string{}
+			if chance(rt, 30, "cp.parkfeed") {
+				arm = []string{"feed.afterBackfill"}
+			}
+			sc.Steps = append(sc.Steps, SStep{Do: "startFeed", Lane: fmt.Sprintf("F%d", i), Arm: arm})
+			feedOn = true
+		case "stopFeed":
+			sc.Steps = append(sc.Steps, SStep{Do: "stopFeed"})
+			feedOn = false
+		case "gateCb":
+			sc.Steps = append(sc.Steps, SStep{Do: "gateCb"})
+		}
+	}
+	return sc
+}
+
+func runCheckpointScript(sc *Script) (devs []Deviation, sr *scriptRun, err error) {
+	sr, err = newScriptRun(sc, "C15")
+	if err != nil {
+		return nil, nil, err
+	}
+	defer sr.close()
+	w := sr.run.W
+	c15 := []string{"C15"}
+	bad := func(clause, f string, a ...any) {
+		devs = append(devs, Deviation{Clause: clause, Props: c15, Sig: clause, Msg: fmt.Sprintf(f, a...) + fmt.Sprintf(" (script: %v)", sr.log)})
+	}
+	readCp := func() uint64 {
+		var cp struct {
+			LastSeq uint64 `json:"last_seq"`
+		}
+		if _, err := w.Coll(0, 0).Get("cp:cpfeed", &cp); err != nil {
+			return 0
+		}
+		return cp.LastSeq
+	}
+	var runs []*cpRun
+	var cur *cpRun
+	delivered := map[string]map[uint64]bool{} // key -> CAS values some run delivered
+	var dmu sync.Mutex
+	startFeed := func(lane string, arm []string, dump bool) {
+		r := &cpRun{prevCp: readCp()}
+		var col *Collector
+		status := sr.s.Start(lane, arm, func() {
+			c := &Collector{Cfg: FeedCfg{}, w: w, term: make(chan bool), done: make(chan struct{}), colls: []int{0}}
+			c.cond = sync.NewCond(&c.mu)
+			args := sgbucket.FeedArguments{ID: "cpfeed", Backfill: sgbucket.FeedResume, Dump: dump, Terminator: c.term, DoneChan: c.done, CheckpointPrefix: "cp"}
+			cb := func(ev sgbucket.FeedEvent) bool {
+				sr.s.onHook("feed.callback", w.Name) // can be held at a gate
+				dmu.Lock()
+				if ev.Opcode == sgbucket.FeedOpMutation || ev.Opcode == sgbucket.FeedOpDeletion {
+					k := string(ev.Key)
+					if delivered[k] == nil {
+						delivered[k] = map[uint64]bool{}
+					}
+					delivered[k][ev.Cas] = true
+					if ev.Cas > r.maxCas {
+						r.maxCas = ev.Cas
+					}
+					r.received++
+				}
+				dmu.Unlock()
+				return true
+			}
+			go func() { <-c.done; c.doneClosed.Store(true) }()
+			if e := w.RColl(0, 0).StartDCPFeed(ctx, args, cb, nil); e != nil {
+				sr.mu.Lock()
+				sr.log = append(sr.log, "StartDCPFeed error: "+e.Error())
+				sr.mu.Unlock()
+				return
+			}
+			sr.mu.Lock()
+			col = c
+			sr.mu.Unlock()
+		})
+		sr.order = append(sr.order, lane)
+		sr.log = append(sr.log, fmt.Sprintf("startFeed %s -> %s", lane, status))
+		r.col = nil
+		cur = r
+		runs = append(runs, r)
+		_ = col
+		// the collector becomes known once the lane is done; fetch lazily
+		go func() {
+			for i := 0; i < 2000; i++ {
+				sr.mu.Lock()
+				c := col
+				sr.mu.Unlock()
+				if c != nil {
+					dmu.Lock()
+					r.col = c
+					dmu.Unlock()
+					return
+				}
+				time.Sleep(2 * time.Millisecond)
+			}
+		}()
+	}
+	collector := func(r *cpRun) *Collector {
+		for i := 0; i < 1000; i++ {
+			dmu.Lock()
+			c := r.col
+			dmu.Unlock()
+			if c != nil {
+				return c
+			}
+			time.Sleep(2 * time.Millisecond)
+		}
+		return nil
+	}
+	// awaitDone: the run has ended and written its checkpoint; check the checkpoint clause
+	awaitDone := func(r *cpRun) {
+		c := collector(r)
+		if c == nil {
+			return
+		}
+		select {
+		case <-c.done:
+		case <-time.After(callTimeout):
+			bad("cp.done", "a stopped feed never closed its done channel")
+			return
+		}
+		cp := readCp()
+		dmu.Lock()
+		max := r.maxCas
+		dmu.Unlock()
+		hi := max
+		if r.prevCp > hi {
+			hi = r.prevCp
+		}
+		if cp > hi {
+			bad("cp.ahead", "the checkpoint after a run is %#x, but the highest CAS that run's callback received is %#x (previous checkpoint %#x)", cp, max, r.prevCp)
+		}
+		if cp < r.prevCp {
+			bad("cp.back", "the checkpoint went backwards: %#x after %#x", cp, r.prevCp)
+		}
+	}
+	var pendingStops []*cpRun
+	gated := false
+	for _, st := range sc.Steps {
+		switch st.Do {
+		case "startFeed":
+			startFeed(st.Lane, st.Arm, false)
+		case "stopFeed":
+			if cur != nil && !cur.stopped {
+				// finish a parked feed start first (cannot stop what is not started)
+				for _, name := range sr.order {
+					if strings.HasPrefix(name, "F") && sr.s.Parked(name) != "" {
+						sr.s.Resume(name, nil)
+					}
+				}
+				if c := collector(cur); c != nil {
+					c.Stop()
+					cur.stopped = true
+					sr.log = append(sr.log, "stopFeed")
+					select {
+					case <-c.done:
+						// ended promptly: the checkpoint document now is this run's checkpoint
+						awaitDone(cur)
+					case <-time.After(300 * time.Millisecond):
+						// its exit is blocked (checkpoint write behind a parked writer): only the
+						// global checkpoint clause at the end applies to it
+						pendingStops = append(pendingStops, cur)
+					}
+				}
+			}
+		case "gateCb":
+			if !gated {
+				sr.s.Gate("feed.callback")
+				gated = true
+				sr.log = append(sr.log, "gateCb")
+			} else {
+				sr.s.OpenGate("feed.callback")
+				gated = false
+				sr.log = append(sr.log, "openCb")
+			}
+		default:
+			if sr.step(st) == "hang" {
+				bad("script.hang", "lane %s hangs", st.Lane)
+				return
+			}
+		}
+	}
+	if gated {
+		sr.s.OpenGate("feed.callback")
+	}
+	if hung := sr.finishAll(); hung != nil {
+		bad("script.hang", "lanes %v never finished", hung)
+		return
+	}
+	sr.s.Stop()
+	if cur != nil && !cur.stopped {
+		if c := collector(cur); c != nil {
+			c.Stop()
+			cur.stopped = true
+			pendingStops = append(pendingStops, cur)
+		}
+	}
+	for _, r := range pendingStops {
+		if c := collector(r); c != nil {
+			select {
+			case <-c.done:
+			case <-time.After(callTimeout):
+				bad("cp.done", "a stopped feed never closed its done channel")
+				return
+			}
+		}
+	}
+	// final run: resume from the checkpoint as a dump; together the runs must have delivered the
+	// final version of every document
+	final := &cpRun{prevCp: readCp()}
+	fc := &Collector{Cfg: FeedCfg{}, w: w, term: make(chan bool), done: make(chan struct{}), colls: []int{0}}
+	fc.cond = sync.NewCond(&fc.mu)
+	args := sgbucket.FeedArguments{ID: "cpfeed", Backfill: sgbucket.FeedResume, Dump: true, DoneChan: fc.done, CheckpointPrefix: "cp"}
+	if e := w.RColl(0, 0).StartDCPFeed(ctx, args, func(ev sgbucket.FeedEvent) bool {
+		if ev.Opcode == sgbucket.FeedOpMutation || ev.Opcode == sgbucket.FeedOpDeletion {
+			k := string(ev.Key)
+			dmu.Lock()
+			if delivered[k] == nil {
+				delivered[k] = map[uint64]bool{}
+			}
+			delivered[k][ev.Cas] = true
+			if ev.Cas > final.maxCas {
+				final.maxCas = ev.Cas
+			}
+			dmu.Unlock()
+		}
+		return true
+	}, nil); e != nil {
+		bad("cp.start", "final StartDCPFeed(resume, dump) failed: %v", e)
+		return
+	}
+	select {
+	case <-fc.done:
+	case <-time.After(callTimeout):
+		bad("cp.done", "the final dump feed never finished")
+		return
+	}
+	if len(runs) == 0 {
+		return // no resumable run before the final one: nothing about resuming to judge
+	}
+	// the persisted checkpoint never exceeds the highest CAS the feed (all its runs) delivered
+	var maxDelivered uint64
+	dmu.Lock()
+	for _, m := range delivered {
+		for c := range m {
+			if c > maxDelivered {
+				maxDelivered = c
+			}
+		}
+	}
+	dmu.Unlock()
+	if cp := readCp(); cp > maxDelivered {
+		bad("cp.ahead", "the final checkpoint is %#x but the highest CAS any run delivered is %#x", cp, maxDelivered)
+	}
+	for _, k := range []string{"a", "b", "c", "d"} {
+		st, _ := Observe(w.Coll(0, 0), k, []string{"_sync"})
+		if !st.Present {
+			continue
+		}
+		dmu.Lock()
+		ok := delivered[k][st.Cas]
+		dmu.Unlock()
+		if !ok {
+			var seen []string
+			for c := range delivered[k] {
+				seen = append(seen, fmt.Sprintf("%#x", c))
+			}
+			sort.Strings(seen)
+			bad("cp.skipped", "the final version of %q (cas %#x) was delivered by none of the %d runs of the checkpointed feed (delivered CAS values for the key: %v)", k, st.Cas, len(runs)+1, seen)
+		}
+	}
+	return
+}
+
+func TestC15(t *testing.T) {
+	scriptTest(t, "C15", "TestC15",
+		"parking-scheduler scripts: a feed with CheckpointPrefix + FeedResume is started (optionally held between backfill and registration), stopped by its terminator and restarted several times while writer lanes mutate 4 keys through the regular write API; stops are placed while a writer is held in the commit->post window and while the feed's callback is held at a gate (events queued but not delivered); a last dump run resumes from the checkpoint. Together the runs must have delivered the final version of every document, and after each stop the checkpoint must not exceed the highest CAS that run's callback received nor go backwards; non-trivial = at least one stop/restart with a writer parked or the callback gated at some point; distinct by script shape and scheduler log",
+		genCheckpointScript, runCheckpointScript,
+		func(sc *Script, sr *scriptRun) bool {
+			stops, special := 0, false
+			for _, s := range sc.Steps {
+				if s.Do == "stopFeed" {
+					stops++
+				}
+				if s.Do == "gateCb" || (s.Do == "start" && len(s.Arm) > 0) {
+					special = true
+				}
+			}
+			return stops >= 1 && special
+		})
+}
